@@ -92,6 +92,8 @@ pub struct Eval {
     pub violations: Vec<Violation>,
     pub nontrivial: bool,
     pub classes: Vec<&'static str>,
+    /// the count-based watchdog aborted the case (inconclusive, never a violation by itself)
+    pub watchdog: bool,
 }
 
 #[derive(Default)]
@@ -104,6 +106,7 @@ pub struct Agg {
     pub failure: Option<Failure>,
     pub extra: BTreeMap<String, Value>,
     pub exhaustive: Option<bool>,
+    pub watchdogs: u64,
 }
 
 #[derive(Clone, Debug)]
@@ -116,6 +119,7 @@ pub struct Failure {
 impl Agg {
     pub fn merge(&mut self, o: Agg) {
         self.evaluations += o.evaluations;
+        self.watchdogs += o.watchdogs;
         self.nontrivial.extend(o.nontrivial);
         for (k, v) in o.classes {
             *self.classes.entry(k).or_default() += v;
@@ -139,6 +143,9 @@ impl Agg {
     /// Record one evaluated case (outside proptest: enumerations).
     pub fn record<T: Hash + Serialize>(&mut self, ctx: &Ctx, kind: &str, input: &T, ev: Eval) -> bool {
         self.evaluations += 1;
+        if ev.watchdog {
+            self.watchdogs += 1;
+        }
         for c in &ev.classes {
             *self.classes.entry(c.to_string()).or_default() += 1;
         }
@@ -253,10 +260,12 @@ where
         // shrink towards a minimal case that still shows an unknown violation
         let mut iters = 0;
         let mut best = tree.current();
+        // the shrink budget only affects how small the replay file gets, never the verdict
+        let shrink_start = Instant::now();
         if tree.simplify() {
             loop {
                 iters += 1;
-                if iters > 4000 {
+                if iters > 4000 || shrink_start.elapsed().as_secs() > 15 {
                     break;
                 }
                 let cand = tree.current();
@@ -339,6 +348,11 @@ pub fn finish(ctx: &Ctx, agg: Agg, rep: Report) -> i32 {
         let hits = agg.known_hits.get(&k.signature).copied().unwrap_or(0);
         println!("KNOWN-FINDING: property={} {} [signature {} hit {} times in this run]", ctx.prop, k.what, k.signature, hits);
     }
+    if code == 0 && agg.watchdogs > 0 {
+        println!("INCONCLUSIVE: {} cases were aborted by the count-based watchdog (client did not stop polling the transport)", agg.watchdogs);
+        code = 2;
+    }
+    coverage.insert("watchdog_aborts".into(), json!(agg.watchdogs));
     let ev = json!({
         "property_id": ctx.prop,
         "tier": ctx.tier.name(),
